@@ -411,6 +411,14 @@ class World(object):
             return rp[len(self.root) + 1:]
         return None
 
+    def in_systmp(self, path):
+        try:
+            p = os.path.realpath(os.fspath(path))
+        except Exception:
+            return False
+        st = getattr(self, 'systmp', None)
+        return bool(st) and (p == st or p.startswith(st + os.sep))
+
     def norm(self, path):
         try:
             p = os.fspath(path)
@@ -495,7 +503,7 @@ class World(object):
             reading = 'r' in m or '+' in m
             modifying = any(c in m for c in 'wxa')
             if rp is None:
-                if writing:
+                if writing and not w.in_systmp(file):
                     w.outside.append(w.norm(file))
                 return real_open(file, mode, *args, **kwargs)
             if modifying:
@@ -589,7 +597,7 @@ class World(object):
                 for x in a[:nargs]:
                     if not isinstance(x, int) and w.rel(x) is not None:
                         w.modlog('os.' + name, x)
-                    elif not isinstance(x, int) and name != 'open':
+                    elif not isinstance(x, int) and name != 'open' and not w.in_systmp(x):
                         w.outside.append(w.norm(x))
                 r = real(*a, **k)
                 if f is not None and f['kind'] == 'crash_after':
@@ -616,7 +624,7 @@ class World(object):
                     w.modlog('os.open:%d' % flags, path)
                     if hasattr(w, 'fdmap'):
                         w.fdmap[fd] = path
-                else:
+                elif not w.in_systmp(path):
                     w.outside.append(w.norm(path))
             return fd
         os.open = sim_os_open
@@ -720,6 +728,16 @@ def execute(entry, root, cwd, argv, env, stdin_bytes, listing_seed, faults=None,
     clock = simclock.SimClock(seeds.mix(listing_seed, 'clock'), stall_p=[0.0, 0.0, 0.1][listing_seed % 3])
     simclock.CURRENT['clock'] = clock
     saved = {'argv': sys.argv, 'stdin': sys.stdin, 'stdout': sys.stdout, 'stderr': sys.stderr, 'cwd': os.getcwd()}
+    # the system temporary directory of the simulated machine: outside the user's tree, writable, emptied afterwards.
+    # Using it is not "touching a file the command was not pointed at".
+    import tempfile
+    systmp = os.path.join(os.path.dirname(w.root), 'systmp-%d' % os.getpid())
+    rmtree(systmp)
+    os.makedirs(systmp)
+    w.systmp = systmp
+    saved_tmp = (os.environ.get('TMPDIR'), tempfile.tempdir)
+    os.environ['TMPDIR'] = systmp
+    tempfile.tempdir = None
     saved_env = {}
     env = env or {}
     for k in env:
@@ -761,6 +779,12 @@ def execute(entry, root, cwd, argv, env, stdin_bytes, listing_seed, faults=None,
             reap_descendants()
     finally:
         simclock.CURRENT['clock'] = None
+        if saved_tmp[0] is None:
+            os.environ.pop('TMPDIR', None)
+        else:
+            os.environ['TMPDIR'] = saved_tmp[0]
+        tempfile.tempdir = saved_tmp[1]
+        rmtree(systmp)
         sys.argv = saved['argv']
         sys.stdin = saved['stdin']
         sys.stdout = saved['stdout']
